@@ -88,6 +88,15 @@ def dress(mod, k=None):
         for _ in range(k % 3):
             p.attach_module(None)
         p.attach_module(mod)
+        if k % 8 == 0:
+            # ... and is wired up there: it feeds an Amplifier (9 controllers) and the output, a Generator feeds it
+            from rv.api import m
+
+            amp, gen = p.new_module(m.Amplifier), p.new_module(m.Generator)
+            mod >> amp
+            if k % 16 == 0:
+                mod >> p.output
+            gen >> mod
     return mod
 
 
@@ -129,6 +138,13 @@ def enum_type(ctx, tname, cls_override=None):
         ctx.check(same(got, want), "C09.default", "%s default is %r, spec says %r" % (ent, got, want), key="C09.default:" + ent, recipe={"op": "default", "type": tname, "ctl": c.name})
 
     def attempt(strict, path, c, prev, v, expect, unit=None):
+        _attempt(strict, path, c, prev, v, expect, unit, None)
+        if path == "setattr" and expect == "ok":
+            # the same assignment on a module that sits in a project and is wired to other modules there
+            _attempt(strict, path, c, prev, v, expect, unit, 16)
+            ctx.label("accept_on_wired_module")
+
+    def _attempt(strict, path, c, prev, v, expect, unit, dress_k):
         """expect in {'ok','reject','any_error','no_cve'}"""
         ent = "%s.%s" % (tname, c.name)
         rec = {"op": "assign", "type": tname, "ctl": c.name, "unit": unit, "prev": repr(prev), "value": repr(v), "strict": strict, "path": path, "expect": expect}
@@ -139,7 +155,7 @@ def enum_type(ctx, tname, cls_override=None):
             err = None
             if path == "setattr":
                 mod = cls()
-                dress(mod, __import__("zlib").crc32(key.encode()) % 600)
+                dress(mod, __import__("zlib").crc32(key.encode()) % 600 if dress_k is None else dress_k)
                 if unit is not None:
                     setattr(mod, c.depends_on, getattr(cls.controllers[c.depends_on].value_type, unit))
                 if prev is not None:
